@@ -109,6 +109,13 @@ func (r *BindRequestReconciler) Reconcile(ctx context.Context, req ctrl.Request)
 		return result, nil
 	}
 
+	if isTerminallyFailed(bindRequest) {
+		// the attempts are used up: the scheduler deletes the request and reschedules the pod
+		logger.Info("BindRequest failed terminally, not retrying", "name", req.NamespacedName,
+			"failedAttempts", bindRequest.Status.FailedAttempts)
+		return result, nil
+	}
+
 	defer func() {
 		var finalError error
 		if r := recover(); r != nil {
@@ -221,6 +228,15 @@ func (r *BindRequestReconciler) deleteHandler(ctx context.Context, event event.T
 			}
 		}
 	}
+}
+
+// isTerminallyFailed mirrors the scheduler's reading of a request it gives up on (bindrequest_info.IsFailed).
+func isTerminallyFailed(bindRequest *schedulingv1alpha2.BindRequest) bool {
+	if bindRequest.Status.Phase != schedulingv1alpha2.BindRequestPhaseFailed {
+		return false
+	}
+	return bindRequest.Spec.BackoffLimit == nil ||
+		bindRequest.Status.FailedAttempts >= *bindRequest.Spec.BackoffLimit
 }
 
 func (r *BindRequestReconciler) UpdateStatus(
